@@ -37,7 +37,7 @@ import time
 head = subprocess.run(["git", "-C", "/repo", "rev-parse", "--short", "HEAD"], capture_output=True, text=True).stdout.strip()
 rp = os.path.join(d, "result.json")
 old = json.load(open(rp)) if os.path.exists(rp) else {"runs": []}
-old["runs"].append({"repo_head": head, "tier": os.environ.get("SEED_TIER", "quick"), "checks": rc_all, "caught_by": caught, "at": time.strftime("%Y-%m-%dT%H:%M:%SZ", time.gmtime())})
+old["runs"].append({"repo_head": head, "tier": os.environ.get("SEED_TIER", "quick"), "verif_seed": int(os.environ.get("VERIF_SEED", "1") or 1), "checks": rc_all, "caught_by": caught, "at": time.strftime("%Y-%m-%dT%H:%M:%SZ", time.gmtime())})
 old["caught_by"] = sorted(set(sum((r["caught_by"] for r in old["runs"]), [])))
 json.dump(old, open(rp, "w"), indent=1)
 sys.exit(0 if caught else 2)
